@@ -1793,6 +1793,28 @@ vnaproperty_t **vnaproperty_vset_subtree(vnaproperty_t **rootptr,
     scanner_t *scanner = &parser.prs_scn;
     vnaproperty_t **anchor;
 
+    /*
+     * Refuse a descriptor with trailing tokens before descending:
+     * parse_and_descend with set modifies the tree.
+     */
+    {
+	parser_t check;
+	va_list ap_copy;
+	bool valid;
+
+	va_copy(ap_copy, ap);
+	if (parse(&check, format, ap_copy) == -1) {
+	    va_end(ap_copy);
+	    return NULL;
+	}
+	va_end(ap_copy);
+	valid = check.prs_scn.scn_token == T_EOF;
+	parser_free(&check);
+	if (!valid) {
+	    errno = EINVAL;
+	    return NULL;
+	}
+    }
     if ((anchor = parse_and_descend(&parser, rootptr,
 		    /*set*/true, format, ap)) == NULL) {
 	return NULL;
